@@ -285,7 +285,17 @@ impl PipeSet {
 
         self.next = None;
         if has_next {
-            self.next = Some(env.system.pipe()?);
+            match env.system.pipe() {
+                Ok(pipe) => self.next = Some(pipe),
+                Err(errno) => {
+                    // The pipeline is abandoned, so the read end kept for the
+                    // next command must not stay open.
+                    if let Some(fd) = self.read_previous.take() {
+                        let _ = env.system.close(fd);
+                    }
+                    return Err(errno);
+                }
+            }
         }
 
         Ok(())
